@@ -682,6 +682,8 @@ pub struct RunOutput {
     pub cov: Cov,
     pub event_hashes: Vec<u64>,
     pub samples: Vec<Value>,
+    /// all observations made in the violating step (for the cross-property matrix)
+    pub all_in_step: Vec<Violation>,
 }
 
 struct View {
@@ -757,6 +759,7 @@ pub fn run_one(seed: u64, run: u64, prof: &Profile, enabled: Enabled, want_sampl
         cov: Cov::new(),
         event_hashes: vec![],
         samples: vec![],
+        all_in_step: vec![],
     };
     if let Some(v) = sim.take_violation() {
         out.violation = Some(v);
@@ -791,6 +794,7 @@ pub fn run_one(seed: u64, run: u64, prof: &Profile, enabled: Enabled, want_sampl
             out.steps.push(st);
             if let Some(v) = v {
                 out.violation = Some(v);
+                out.all_in_step = sim.last_all.clone();
                 out.cov = sim.cov.clone();
                 return out;
             }
